@@ -386,6 +386,13 @@ func evalEntry(o *engine.Outcome, e *entry, ei, bi int, nowMs, subMsNs int64) {
 				o.Probe("in_band_agrees_with_strict_model")
 			}
 		}
+		side := "in-band"
+		if diff >= dayMs {
+			side = "expired-side"
+		} else if -diff >= dayMs {
+			side = "future-side"
+		}
+		o.Tag("(entry kind, side of the expiry the clock was on)", e.kind+"/"+side)
 		o.FP.Step("eval", ei, bi, got)
 	})
 }
